@@ -406,6 +406,8 @@ func (s *Session) Run() (err error) {
 
 		switch s.currentState() {
 		case WaitingLogon:
+			// Senders read the settings under the send lock.
+			s.mu.Lock()
 			s.LogonSettings = &LogonSettings{
 				HeartBtInt:      incomingLogon.HeartBtInt(),
 				EncryptMethod:   incomingLogon.EncryptMethod(),
@@ -422,6 +424,7 @@ func (s *Session) Run() (err error) {
 			if s.side == sideAcceptor {
 				s.LogonSettings.TargetCompID, s.LogonSettings.SenderCompID = s.LogonSettings.SenderCompID, s.LogonSettings.TargetCompID
 			}
+			s.mu.Unlock()
 
 			if ok, tag, reasonCode := s.checkLogonParams(incomingLogon); !ok {
 				s.sendWithErrorCheck(s.MakeReject(reasonCode, tag, incomingLogon.HeaderBuilder().MsgSeqNum()))
